@@ -197,6 +197,40 @@ pub fn check_built(spec: &Spec, props: &[u8], st: &mut Stats) {
                 }
             }
         }
+        // the batch form add_fns must hand out the same ids and give the same graph
+        if (1..=4).contains(&n) {
+            let r = catch_quiet(|| {
+                let mut b = FnGraphBuilder::new();
+                let mk = |i: usize| Node::new(i, spec.acc(i).to_vec());
+                let ids: Vec<usize> = match n {
+                    1 => b.add_fns([mk(0)]).iter().map(|i| i.index()).collect(),
+                    2 => b.add_fns([mk(0), mk(1)]).iter().map(|i| i.index()).collect(),
+                    3 => b.add_fns([mk(0), mk(1), mk(2)]).iter().map(|i| i.index()).collect(),
+                    _ => {
+                        // two calls: 1 + 3
+                        let mut v: Vec<usize> = b.add_fns([mk(0)]).iter().map(|i| i.index()).collect();
+                        v.extend(b.add_fns([mk(1), mk(2), mk(3)]).iter().map(|i| i.index()));
+                        v
+                    }
+                };
+                for &(x, y, contains) in &spec.edges {
+                    let r = if contains { b.add_contains_edge(FnId::new(x), FnId::new(y)) } else { b.add_logic_edge(FnId::new(x), FnId::new(y)) };
+                    r.expect("spec edges are acyclic");
+                }
+                (ids, b.build())
+            });
+            match r {
+                Ok((ids2, g2)) => {
+                    if ids2 != (0..n).collect::<Vec<_>>() {
+                        bviol(st, 11, spec, what, format!("add_fns returned ids {ids2:?}"));
+                    }
+                    if !(g2 == g) {
+                        bviol(st, 11, spec, what, "the graph built with add_fns differs from the graph built with add_fn".into());
+                    }
+                }
+                Err(m) => bviol(st, 11, spec, what, format!("build via add_fns panicked: {m}")),
+            }
+        }
         // every accepted user edge exactly once with its kind; everything else Data
         let mut rest: Vec<(usize, usize, Edge)> = raw.clone();
         for &(a, b, c) in &spec.edges {
